@@ -222,9 +222,86 @@ pub fn hash_of(v: &impl std::hash::Hash) -> u64 {
 	h.finish()
 }
 
-/// Run `f`, turning a panic into `Err(message)`.
+/// Hang detection.  Every call into the code under test goes through `guarded`; a watcher thread reports a call
+/// that has not returned within JSV_HANG_S seconds (default 30) as `HANG {json}` on stdout and ends the process
+/// with exit code 98: non-termination of the code under test is data (the specification gives every call a result).
+pub mod watchdog {
+	use std::cell::Cell;
+	use std::sync::atomic::{AtomicU64, AtomicUsize, Ordering};
+	use std::sync::{Mutex, OnceLock};
+	use std::time::{Duration, Instant};
+
+	const MAX: usize = 64;
+	pub struct Slot {
+		since: AtomicU64,
+		ctx: Mutex<String>,
+	}
+	static SLOTS: OnceLock<Vec<Slot>> = OnceLock::new();
+	static NEXT: AtomicUsize = AtomicUsize::new(0);
+	static T0: OnceLock<Instant> = OnceLock::new();
+	thread_local! {
+		static MY: usize = NEXT.fetch_add(1, Ordering::Relaxed) % MAX;
+		static DEPTH: Cell<u32> = Cell::new(0);
+	}
+	fn slots() -> &'static Vec<Slot> {
+		SLOTS.get_or_init(|| (0..MAX).map(|_| Slot { since: AtomicU64::new(0), ctx: Mutex::new(String::new()) }).collect())
+	}
+	fn now_ms() -> u64 {
+		T0.get_or_init(Instant::now).elapsed().as_millis() as u64 + 1
+	}
+	pub fn enter() {
+		DEPTH.with(|d| {
+			if d.get() == 0 {
+				MY.with(|i| slots()[*i].since.store(now_ms(), Ordering::Relaxed));
+			}
+			d.set(d.get() + 1);
+		});
+	}
+	pub fn leave() {
+		DEPTH.with(|d| {
+			d.set(d.get().saturating_sub(1));
+			if d.get() == 0 {
+				MY.with(|i| slots()[*i].since.store(0, Ordering::Relaxed));
+			}
+		});
+	}
+	/// what this thread is working on (a vector line, an event description): printed if a call hangs
+	pub fn set_context(s: &str) {
+		MY.with(|i| {
+			let mut c = slots()[*i].ctx.lock().unwrap();
+			c.clear();
+			c.push_str(s);
+		});
+	}
+	pub fn start() {
+		let limit = std::env::var("JSV_HANG_S").ok().and_then(|s| s.parse::<u64>().ok()).unwrap_or(30);
+		if limit == 0 {
+			return;
+		}
+		now_ms();
+		std::thread::spawn(move || loop {
+			std::thread::sleep(Duration::from_millis(250));
+			let now = now_ms();
+			for s in slots() {
+				let t = s.since.load(Ordering::Relaxed);
+				if t != 0 && now.saturating_sub(t) > limit * 1000 {
+					let ctx = s.ctx.lock().map(|c| c.clone()).unwrap_or_default();
+					println!("HANG {}", serde_json::json!({"seconds": limit, "context": ctx}));
+					use std::io::Write;
+					let _ = std::io::stdout().flush();
+					std::process::exit(98);
+				}
+			}
+		});
+	}
+}
+
+/// Run `f` (a call into the code under test), turning a panic into `Err(message)`; watched by the hang detector.
 pub fn guarded<T>(f: impl FnOnce() -> T) -> Result<T, String> {
-	match std::panic::catch_unwind(std::panic::AssertUnwindSafe(f)) {
+	watchdog::enter();
+	let r = std::panic::catch_unwind(std::panic::AssertUnwindSafe(f));
+	watchdog::leave();
+	match r {
 		Ok(v) => Ok(v),
 		Err(e) => Err(if let Some(s) = e.downcast_ref::<&str>() {
 			s.to_string()
